@@ -36,7 +36,6 @@ def run(ctx: Ctx, clauses=None, salt=None) -> int:
     ctx.extra["clauses"] = sorted(clauses)
     ctx.assumptions += [
         "float dimension sampled by 8 embeddings (incl. a non-zero origin)",
-        "allocations in which a listed module has total area 0 cannot be constructed (ZeroDivisionError in the constructor) and are skipped",
         "operation sequences are bounded so that every halving stays on the integer micro-lattice",
     ]
     return ctx.finish(
